@@ -1,5 +1,6 @@
 import TracklibVerif.Model.Seq
 import TracklibVerif.Model.SeqOps
+import TracklibVerif.Model.SeqMore
 import TracklibVerif.Drv.Util
 /-! Driver handler for C04 (sequence operations of `Track`).
 
@@ -18,6 +19,13 @@ position as column). A track reply is `<pts> <table>`.
   step <pts> <names> <n>                    → track | err:value
   pattern <pts> <names> <pattern 0/1 string or _> → track | err:zerodiv
   gt <pts> <names> <n> ,  lt <pts> <names> <n>     → track
+  reverse <pts> <names>                     → track | err:value
+  makeodd <pts> , makeeven <pts>            → pts | err:index
+  setobs <pts> <i> <obs>                    → pts | err:index
+  first <pts> , last <pts>                  → tag | err:index
+  split <pts> <names> <number>              → the segments `<pts>` separated by `;` (`-` = no segment), then ` <table>` | err:zerodiv
+  removets <pts> <times>                    → `<pts> <counter>`
+  sliceidx <len> <a|N> <b|N> <c>            → `<start> <stop> <length>` as CPython's slice.indices adjusts them | err:value
   radix <digits of obs 0>;<digits of obs 1>;…      → the positions in their new order | err:index
         (six digits per observation, least significant first: sec*1000+ms, min, hour, day-1, month-1, year)
   session <tracks> <ops>                           → one `out|k|pts|table|reads` per operation, `;`-separated
@@ -153,6 +161,54 @@ def handle (cmd : String) (args : List String) : String :=
         | none => "err:index"
       else "bad-request"
     | none => "bad-request"
+  | "reverse", [p, n] =>
+    match track? p n with
+    | some tr =>
+      match reverseTrack tr with
+      | some r => showTrack r
+      | none => "err:value"
+    | none => "bad-request"
+  | "makeodd", [p] =>
+    match pts? p with
+    | some l => (match makeOdd l with | some r => showPts r | none => "err:index")
+    | none => "bad-request"
+  | "makeeven", [p] =>
+    match pts? p with
+    | some l => (match makeEven l with | some r => showPts r | none => "err:index")
+    | none => "bad-request"
+  | "setobs", [p, i, o] =>
+    match pts? p, i.toInt?, obs? o with
+    | some l, some i, some o => (match pySet l i o with | some r => showPts r | none => "err:index")
+    | _, _, _ => "bad-request"
+  | "first", [p] =>
+    match pts? p with
+    | some l => (match getFirst l with | some o => toString o.tag | none => "err:index")
+    | none => "bad-request"
+  | "last", [p] =>
+    match pts? p with
+    | some l => (match getLast l with | some o => toString o.tag | none => "err:index")
+    | none => "bad-request"
+  | "split", [p, n, k] =>
+    match track? p n, k.toInt? with
+    | some tr, some k =>
+      match splitEven tr k with
+      | some segs => (if segs.isEmpty then "-" else joinWith ";" (segs.map (fun t => showPts t.pts))) ++ " " ++ showTable tr.table
+      | none => "err:zerodiv"
+    | _, _ => "bad-request"
+  | "removets", [p, ts] =>
+    match pts? p, intList? ts with
+    | some l, some tab =>
+      let r := removeByTimes l tab
+      showPts r.1 ++ " " ++ toString r.2
+    | _, _ => "bad-request"
+  | "sliceidx", [len, a, b, c] =>
+    match len.toNat?, optInt? a, optInt? b, c.toInt? with
+    | some len, some a, some b, some c =>
+      if c = 0 then "err:value"
+      else
+        let (s, e) := sliceBounds len a b c
+        s!"{s} {e} {sliceLen s e c}"
+    | _, _, _, _ => "bad-request"
   | "index", [ts, t] =>
     match intList? ts, t.toInt? with
     | some T, some t => showRes (insertionIndex T t)
